@@ -504,6 +504,14 @@ def extract_obligations(rep, tier):
     if miss:
         ob.shape_only = True
     obs.append(ob)
+    # RDATE: the listed local times themselves (next to DTSTART) are the onsets' local times
+    want3 = ["transtimes = [dtstart] + [leaf.dt for tree in rdates for leaf in tree.dts]"]
+    miss = [w for w in want3 if w not in src]
+    ob = ob_from(f"{PID}.E.RDATE_values_are_taken_as_they_are_written", fn, lines, PROVED if not miss else REFUTED,
+                 "transtimes = [DTSTART] + the RDATE values unchanged" if not miss else f"statement shape changed: missing {want3[0]!r}", backend="fin")
+    if miss:
+        ob.shape_only = True
+    obs.append(ob)
     return obs
 
 
